@@ -41,15 +41,15 @@ def wrapWith (h : Handler) (method pattern router : Bytes) (ms : List Nat) : Han
 
 /-! ## Methods -/
 
-def mGET : Bytes := bytesOfString "GET"
-def mPOST : Bytes := bytesOfString "POST"
-def mDELETE : Bytes := bytesOfString "DELETE"
-def mPUT : Bytes := bytesOfString "PUT"
-def mPATCH : Bytes := bytesOfString "PATCH"
-def mCONNECT : Bytes := bytesOfString "CONNECT"
-def mTRACE : Bytes := bytesOfString "TRACE"
-def mHEAD : Bytes := bytesOfString "HEAD"
-def mOPTIONS : Bytes := bytesOfString "OPTIONS"
+def mGET : Bytes := [71, 69, 84]   -- "GET"
+def mPOST : Bytes := [80, 79, 83, 84]   -- "POST"
+def mDELETE : Bytes := [68, 69, 76, 69, 84, 69]   -- "DELETE"
+def mPUT : Bytes := [80, 85, 84]   -- "PUT"
+def mPATCH : Bytes := [80, 65, 84, 67, 72]   -- "PATCH"
+def mCONNECT : Bytes := [67, 79, 78, 78, 69, 67, 84]   -- "CONNECT"
+def mTRACE : Bytes := [84, 82, 65, 67, 69]   -- "TRACE"
+def mHEAD : Bytes := [72, 69, 65, 68]   -- "HEAD"
+def mOPTIONS : Bytes := [79, 80, 84, 73, 79, 78, 83]   -- "OPTIONS"
 /-- `methodNotAllowed = ""`: the key of the 405 handler. -/
 def mNotAllowed : Bytes := []
 
